@@ -33,6 +33,9 @@ META = dict(
         "exactness of derivre's emptiness decision — external crate)"
     ),
 )
+META["explanation"] += (
+    " Added after the independent seeding rounds 2-3: " 'R6 slicer-shortcut soundness (shared with C01-R5 / C10-R1,R4): a token put into the mask by the shortcut must be consumable.'
+)
 
 
 def run(ctx):
